@@ -50,7 +50,8 @@ CLAIMED['C02'] = dict(
     note='Object mutation by encode()/decode() is modelled by postEncReq/postEncResp/decodeIntoResp and compared with the real objects.')
 CLAIMED['C14'] = dict(
     text='Kernel-checked: read_size_exact (prediction = 1 + encoded normal response for FC 1-4, 23, every context and quantity, via the C04 '
-         'refinement), write_size_exact, diag_size_exact (every FC 8 sub-function class), exception_size; exhaustive run over all quantities '
+         'refinement), expected_adu_exact (the ADU length the client computes = the length of the frame the server builds, RTU/ASCII/binary), '
+         'write_size_exact, diag_size_exact (every FC 8 sub-function class), exception_size; exhaustive run over all quantities '
          'through the real server path and through a stub-transport client for RTU/ASCII/binary/TLS/socket framings.',
     design='6/C14', technique='Lean 4 arithmetic proof over the C04 refinement + exhaustive differential run',
     note='Per-framing overhead is checked on the real framers by the harness (transport stub returns exactly the bytes asked).')
